@@ -56,6 +56,8 @@ struct Cx {
     /// replay filter: (type name, index)
     only: Option<(String, usize)>,
     verbose: bool,
+    /// flush the output files after every case (child processes that may be killed)
+    flush_each: bool,
 }
 
 fn type_name<T>() -> String {
@@ -895,6 +897,15 @@ let idm m : Map String a -> Map String a = m
 { app, idm }
 "#;
 
+fn flush(cx: &mut Cx) {
+    use std::io::Write;
+    if cx.flush_each {
+        let _ = cx.out.cases.flush();
+        let _ = cx.out.imp.flush();
+        let _ = cx.out.oracle.flush();
+    }
+}
+
 fn gen_key(r: &mut Rng) -> String {
     match r.below(10) {
         0 => <String as Marsh>::gen(r),
@@ -956,7 +967,8 @@ where
     let sizes = [0usize, 1, 2, 3, 4, 5, 7, 9, 13, 21, 34, 50];
     for i in 0..n_cases {
         // generate always (determinism), run only the selected index on replay
-        let n = sizes[r.below(sizes.len() as u64) as usize];
+        // small trees first: a reader that revisits subtrees is exponential on long spines
+        let n = if i < n_cases / 3 { sizes[r.below(7) as usize] } else { sizes[r.below(sizes.len() as u64) as usize] };
         let mode = r.below(6);
         let mut entries: Vec<(String, V)> = (0..n).map(|_| (gen_key(&mut r), V::gen(&mut r))).collect();
         let extra: Vec<(String, V)> = (0..r.below(8) as usize).map(|_| (gen_key(&mut r), V::gen(&mut r))).collect();
@@ -1048,6 +1060,7 @@ where
             println!("how     {}\ntree    {}\nread    {}", how, g.sexp(), payload);
         }
         cx.out.case(&format!("getg {} {}", tcode, g.sexp()), &payload);
+        flush(cx);
         let via_fn = gv::catch(|| rd.call(m.clone()));
         let seen = gv::catch(|| observer.call(m.clone()));
         match (&direct, &via_fn) {
@@ -1079,6 +1092,7 @@ where
             }
             _ => cx.out.oracle_fail("gluon-map:read-panic", &format!("{} ({}): reading the map panicked or failed", name, how), replay.clone()),
         }
+        flush(cx);
     }
 }
 
@@ -1234,6 +1248,95 @@ fn run_record_orders(cx: &mut Cx) {
     }
 }
 
+
+/// Everything whose shape only gluon code produces, in-process.
+fn gluon_built_section(cx: &mut Cx) {
+    // values whose shape only gluon code produces
+    if let Err(e) = cx.vm.load_script("c11m", MAP_MOD) {
+        if std::env::var("C11_DEBUG").is_ok() { eprintln!("{}", e); }
+        cx.out.oracle_fail("setup:gluon-map:module", &norm_err(&e.to_string()), json!({"op": "gluon-map"}));
+    } else {
+        run_gluon_maps::<i32>(cx);
+        run_gluon_maps::<Vec<u8>>(cx);
+        run_gluon_maps::<Option<String>>(cx);
+        run_gluon_maps::<(f32, Option<String>)>(cx);
+        run_gluon_maps::<Point>(cx);
+        run_gluon_maps::<Shape>(cx);
+        run_gluon_maps::<BTreeMap<String, i32>>(cx);
+        run_json_maps(cx);
+    }
+    run_gluon_arrays::<u8>(cx);
+    run_gluon_arrays::<i64>(cx);
+    run_gluon_arrays::<f64>(cx);
+    run_gluon_arrays::<String>(cx);
+    run_gluon_arrays::<Option<i16>>(cx);
+    run_gluon_arrays::<Vec<u8>>(cx);
+    run_gluon_arrays::<()>(cx);
+    run_gluon_arrays::<(i32, String)>(cx);
+    run_record_orders(cx);
+}
+
+/// The same in a child process with a time limit: a reader that walks a subtree twice is exponential
+/// on the spines (a hang, not a wrong answer); what the child wrote until then is merged.
+fn run_gluon_built(cx: &mut Cx, args: &Args) {
+    if let Some((n, _)) = &cx.only {
+        if n.starts_with("gluon-") {
+            gluon_built_section(cx);
+        }
+        return;
+    }
+    let sub = args.out.join("gluon-built");
+    let _ = std::fs::create_dir_all(&sub);
+    let limit = if cx.n_random > 100 { 1800 } else { 300 };
+    let seed = cx.seed.to_string();
+    let e = gv::child::run(
+        &["--child", "gluon-built", "--seed", &seed, "--tier", &args.tier, "--out", sub.to_str().unwrap()],
+        b"",
+        std::time::Duration::from_secs(limit),
+    );
+    let read = |n: &str| std::fs::read_to_string(sub.join(n)).unwrap_or_default();
+    let (cases, imp) = (read("cases.txt"), read("impl.txt"));
+    let strip = |l: &str| -> Option<String> {
+        let l = l.strip_prefix('(')?.strip_suffix(')')?;
+        Some(l.splitn(2, ' ').nth(1)?.to_string())
+    };
+    let mut last = String::new();
+    for (c, i) in cases.lines().zip(imp.lines()) {
+        if let (Some(c), Some(i)) = (strip(c), strip(i)) {
+            last = clip(&c);
+            cx.out.case(&c, &i);
+        }
+    }
+    for l in read("oracle.jsonl").lines() {
+        if let Ok(o) = serde_json::from_str::<serde_json::Value>(l) {
+            cx.out.oracle_fail(o["fingerprint"].as_str().unwrap_or("?"), o["what"].as_str().unwrap_or("?"), o["replay"].clone());
+        }
+    }
+    if let Ok(st) = serde_json::from_str::<serde_json::Value>(&read("stats.json")) {
+        if let Some(d) = st["distribution"].as_object() {
+            for (k, v) in d {
+                cx.out.add(k, v.as_u64().unwrap_or(0));
+            }
+        }
+        for k in 0..st["distinct_nontrivial"].as_u64().unwrap_or(0) {
+            cx.out.class(format!("gluon-built#{}", k));
+        }
+    }
+    match &e {
+        gv::child::Exit::Ok(_) => {}
+        gv::child::Exit::Timeout(_) => cx.out.oracle_fail(
+            "gluon-built:hang",
+            &format!("reading values built by gluon code did not finish within {} s; last completed case: {}", limit, last),
+            json!({"op": "gluon-built"}),
+        ),
+        other => cx.out.oracle_fail(
+            "gluon-built:crash",
+            &format!("the process reading values built by gluon code died ({}); last completed case: {}", other.class(), last),
+            json!({"op": "gluon-built"}),
+        ),
+    }
+}
+
 /// The types that also go through the serde bridge (everything except `Ordering`, which has no
 /// serde impls).
 macro_rules! serde_types {
@@ -1302,6 +1405,24 @@ fn child_de() {
 fn child(mode: &str) {
     if mode == "de" {
         return child_de();
+    }
+    if mode == "gluon-built" {
+        let args = Args::parse();
+        let vm = gv::vm::new_vm();
+        gv::quiet_panics();
+        if let Err(e) = vm.load_script("c11t", TYPES_SRC) {
+            eprintln!("c11t: {}", e);
+            std::process::exit(3);
+        }
+        if let Err(e) = vm.run_expr::<OpaqueValue<&Thread, Hole>>("c11_pre", "let _ = import! std.map\nlet _ = import! std.types\n()") {
+            eprintln!("preload: {}", e);
+            std::process::exit(3);
+        }
+        let n = if args.thorough() { 400 } else { 40 };
+        let mut cx = Cx { vm, out: Out::new(&args.out), seed: args.seed, n_random: n, only: None, verbose: false, flush_each: true };
+        gluon_built_section(&mut cx);
+        cx.out.finish();
+        return;
     }
     if mode == "gluon-src" {
         use std::io::Read;
@@ -1402,7 +1523,7 @@ fn main() {
         gv::quiet_panics();
     }
     let verbose = only.is_some();
-    let mut cx = Cx { vm, out: Out::new(&args.out), seed, n_random: tier_n, only, verbose };
+    let mut cx = Cx { vm, out: Out::new(&args.out), seed, n_random: tier_n, only, verbose, flush_each: false };
 
     let de_res = if cx.only.is_none() { collect_de(seed, tier_n) } else { DeResults::new() };
     let mut t_idx = 0usize;
@@ -1416,31 +1537,7 @@ fn main() {
     conv!(i64 => i16, i64 => i32, i64 => u16, i64 => u32, i64 => u64, i64 => usize, i64 => isize, i64 => char,
           u64 => i64, u64 => i32, u32 => i16, usize => u16, isize => u32, i32 => char, u32 => char,
           f64 => f32, f32 => f64, char => u32, char => i16, i16 => u64, i32 => u64);
-    // values whose shape only gluon code produces
-    let t_maps = std::time::Instant::now();
-    if let Err(e) = cx.vm.load_script("c11m", MAP_MOD) {
-        if std::env::var("C11_DEBUG").is_ok() { eprintln!("{}", e); }
-        cx.out.oracle_fail("setup:gluon-map:module", &norm_err(&e.to_string()), json!({"op": "gluon-map"}));
-    } else {
-        run_gluon_maps::<i32>(&mut cx);
-        run_gluon_maps::<Vec<u8>>(&mut cx);
-        run_gluon_maps::<Option<String>>(&mut cx);
-        run_gluon_maps::<(f32, Option<String>)>(&mut cx);
-        run_gluon_maps::<Point>(&mut cx);
-        run_gluon_maps::<Shape>(&mut cx);
-        run_gluon_maps::<BTreeMap<String, i32>>(&mut cx);
-        run_json_maps(&mut cx);
-    }
-    run_gluon_arrays::<u8>(&mut cx);
-    run_gluon_arrays::<i64>(&mut cx);
-    run_gluon_arrays::<f64>(&mut cx);
-    run_gluon_arrays::<String>(&mut cx);
-    run_gluon_arrays::<Option<i16>>(&mut cx);
-    run_gluon_arrays::<Vec<u8>>(&mut cx);
-    run_gluon_arrays::<()>(&mut cx);
-    run_gluon_arrays::<(i32, String)>(&mut cx);
-    run_record_orders(&mut cx);
-    if std::env::var("C11_DEBUG").is_ok() { eprintln!("gluon-built section {:?}", t_maps.elapsed()); }
+    run_gluon_built(&mut cx, &args);
     run_globals(&mut cx);
     run_children(&mut cx);
     cx.out.stats.insert("types".into(), serde_json::Value::from(68u64));
